@@ -569,12 +569,8 @@ func checkC19Draw(c *Ctx, p *Prog) {
 		return
 	}
 	checkDirtyGate(c, p, fn, "C19-R5", func(in ssa.Instruction) bool {
-		cc := callCommon(in)
-		if cc == nil || calleeName(cc) != "(syscall/js.Value).Call" || len(cc.Args) < 2 {
-			return false
-		}
-		s, _ := constString(cc.Args[1])
-		return s == "drawCell"
+		_, ok := webDrawContent(in)
+		return ok
 	}, 1)
 	checkDrawCellWidth(c, p, fn, "C19-R5")
 	checkResolvedStyle(c, p, fn, "C19-R5")
@@ -593,20 +589,9 @@ func checkC19Draw(c *Ctx, p *Prog) {
 		ok, detail := false, "no drawCell call with empty content in a loop bounded by the cell's width"
 		loops := loopsOf(fn)
 		eachInstr(fn, func(in ssa.Instruction) {
-			cc := callCommon(in)
-			if cc == nil || calleeName(cc) != "(syscall/js.Value).Call" || len(cc.Args) < 3 {
+			content, isDraw := webDrawContent(in)
+			if !isDraw || content == nil {
 				return
-			}
-			if s, _ := constString(cc.Args[1]); s != "drawCell" {
-				return
-			}
-			n, vals, okV := varargCount(cc.Args[2])
-			if !okV || n < 3 {
-				return
-			}
-			content := vals[2]
-			if mi, isMI := content.(*ssa.MakeInterface); isMI {
-				content = mi.X
 			}
 			if s, isC := constString(content); !isC || s != "" {
 				return
@@ -693,4 +678,56 @@ func derefCellOrSelf(v ssa.Value) ssa.Value {
 		return nil
 	}
 	return derefCell(v)
+}
+
+// webDrawContent: in hands one column to the page — js.Global().Call("drawCell", x, y, content, …)
+// directly, or through a module helper whose body is that call with the content taken from one of its
+// parameters (`putCell(x, y, text, …)`).  Returns the content value as seen at the call site.
+func webDrawContent(in ssa.Instruction) (ssa.Value, bool) {
+	direct := func(in ssa.Instruction) (ssa.Value, bool) {
+		cc := callCommon(in)
+		if cc == nil || calleeName(cc) != "(syscall/js.Value).Call" || len(cc.Args) < 3 {
+			return nil, false
+		}
+		if s, _ := constString(cc.Args[1]); s != "drawCell" {
+			return nil, false
+		}
+		n, vals, okV := varargCount(cc.Args[2])
+		if !okV || n < 3 {
+			return nil, true
+		}
+		content := vals[2]
+		if mi, isMI := content.(*ssa.MakeInterface); isMI {
+			content = mi.X
+		}
+		return content, true
+	}
+	if v, ok := direct(in); ok {
+		return v, true
+	}
+	cc := callCommon(in)
+	if cc == nil {
+		return nil, false
+	}
+	h := cc.StaticCallee()
+	if h == nil || in.Parent() == nil || h.Pkg != in.Parent().Pkg || len(h.Blocks) == 0 || h.Name() == "drawCell" {
+		return nil, false
+	}
+	var content ssa.Value
+	found := false
+	eachInstr(h, func(hin ssa.Instruction) {
+		v, ok := direct(hin)
+		if !ok {
+			return
+		}
+		found = true
+		if pa, isP := v.(*ssa.Parameter); isP {
+			for i, q := range h.Params {
+				if q == pa && i < len(cc.Args) {
+					content = cc.Args[i]
+				}
+			}
+		}
+	})
+	return content, found
 }
